@@ -11,6 +11,8 @@ Parsers == {"dms", "dmslatlon", "dmsangle", "dmsazi", "geocoords", "mgrs", "osgb
 \* abstract alphabet of bytes: digits, point, signs, DMS symbols, letters with a role, space, exponent, NUL, high bytes
 Alpha == {48, 49, 57, 46, 43, 45, 100, 39, 34, 58, 78, 83, 69, 87, 32, 101, 0, 226, 128, 178, 194, 176, 110, 97, 105, 118, 47, 44}
 
+ValClasses == {"nan", "inf", "neg", "zero", "huge", "maxint", "bigint", "word", "two", "frac", "empty"}
+
 Init == v = <<"root">>
 Next ==
   \/ v = <<"root">> /\ \E c \in 0..(NChunks - 1) : v' = <<"chunk", c>>
@@ -20,8 +22,21 @@ Next ==
   \/ v[1] = "chunk" /\ v[2] = 0 /\ \E p \in Parsers : v' = <<"str", p, <<>>>>
   \/ v[1] = "str" /\ Len(v[3]) < StrDepth /\ \E b \in Alpha : v' = <<"str", v[2], Append(v[3], b)>>
   \* corrupted saves: truncation at every length, byte faults at every offset
+  \/ v[1] = "chunk" /\ v[2] = 0 /\ \E m \in {"text", "bin"} : v' = <<"nn", m, "none", 0>>                                    \* the unfaulted saves load
   \/ v[1] = "chunk" /\ \E m \in {"text", "bin"}, f \in {"truncate", "flipbyte", "zero", "ff", "append", "digit", "tok-ts", "tok-ts1", "tok-np", "tok-np1", "tok-m1", "tok-m2", "tok-big"},
         p \in {q \in 0..400 : q % NChunks = v[2]} : v' = <<"nn", m, f, p>>
+
+  \* malformed model files (metadata text and binary coefficient file of MagneticModel / GravityModel): byte faults at every
+  \* offset, line faults (dropped / duplicated keyword, value replaced by a special class), set-header words replaced
+  \/ v[1] = "chunk" /\ v[2] = 0 /\ \E k \in {"mag", "grv"}, pt \in {"meta", "cof"} : v' = <<"mfile", k, pt, "none", 0>>   \* the unfaulted files load
+  \/ v[1] = "chunk" /\ \E k \in {"mag", "grv"}, f \in {"truncate", "flipbyte", "zero", "ff"},
+        p \in {q \in 0..460 : q % NChunks = v[2]} : v' = <<"mfile", k, "meta", f, p>>
+  \/ v[1] = "chunk" /\ \E k \in {"mag", "grv"}, f \in {"dropline", "dupline"} \cup {"val-" \o c : c \in ValClasses},
+        p \in {q \in 0..19 : q % NChunks = v[2]} : v' = <<"mfile", k, "meta", f, p>>
+  \/ v[1] = "chunk" /\ \E k \in {"mag", "grv"}, f \in {"truncate", "flipbyte", "zero", "ff", "append"},
+        p \in {q \in 0..370 : q % NChunks = v[2]} : v' = <<"mfile", k, "cof", f, p>>
+  \/ v[1] = "chunk" /\ \E k \in {"mag", "grv"}, f \in {"word-" \o c : c \in {"m1", "m2", "max", "min", "n1", "e5", "e4", "64k"}},
+        p \in {q \in 0..90 : q % NChunks = v[2]} : v' = <<"mfile", k, "cof", f, p>>
 
 \* the table is well formed
 TableInv ==
@@ -31,5 +46,5 @@ TableInv ==
   \* every sort rejects NaN for constructors and accepts an ordinary value
   /\ \A s \in {"a", "k0", "gm", "omega", "f", "fpos", "stdlat"} : Invalid(s, "nan") /\ ~Invalid(s, "tiny")
 
-Emit == v[1] \in {"call", "str", "nn"} => PrintT(ToJson(v))
+Emit == v[1] \in {"call", "str", "nn", "mfile"} => PrintT(ToJson(v))
 =============================================================================
